@@ -327,6 +327,12 @@ func (c *ClientConn) Receive(reader io.Reader) error {
 // If an unprepared error is encountered it attempts to prepare the query on the connection and re-execute the original
 // request.
 func (c *ClientConn) maybePrepareAndExecute(request Request, raw *frame.RawFrame) bool {
+	switch request.(type) {
+	case *internalRequest, *prepareRequest:
+		// The connection's own requests (heartbeats, handshake, USE, re-prepares) cannot be re-executed; an
+		// UNPREPARED answer to one of them is an error like any other.
+		return false
+	}
 	isUnprepared := false
 	if raw.Header.Flags != 0 {
 		// The error code is not at the start of the raw body if it is compressed or prefixed by a tracing ID, warnings
